@@ -6,13 +6,18 @@
    StoreSector) "no visible effect" is read as: every batch is atomic, every intermediate
    committed state is consistent, and running the operation again completes it.
 
-   Partial: process death is modelled as the failure of the k-th database call with nothing
-   executed afterwards; that an uncommitted SQLite transaction leaves no trace after a real
-   crash (atomic commit, WAL recovery) is trusted, not modelled (c09_process_death_partial). *)
+   Process death (WP-D): c09_process_death_partial equates a death with the failure of the k-th
+   database call.  Model.die defines death on its own — the machine stops after n completed
+   database calls, the file holds what the last completed Commit installed — and
+   c09_death_is_failed_call proves the equation; c09_process_death / c09_death_single_* are the
+   all-or-nothing statements for a death at every point.  What stays trusted is SQLite itself
+   (an uncommitted transaction leaves no trace in the file, WAL recovery); TestVerifC09Kill
+   tests exactly that on SIGKILLed child processes and evaluates Model.die on their histories. *)
 From HostdBase Require Import Base.
 From Coq Require Import String.
 From HostdTxn Require Import Retry ClosureTable RetryProofs.
 From HostdTxn Require Import Shape TxnTable Model Proofs.
+From HostdTxn Require Import Death Reorg Volume VolumeProofs.
 
 (** Obligations on the table regenerated from the source on every run *)
 
@@ -266,4 +271,167 @@ Example c09_nonvacuous :
   snd (step init (Call "ReviseContract" "BXXXXPPXXXXXXC" 0 (Some (5%N, Hard)))) = OCall 1 "BXXXXpR" false /\
   snd (step init (Call "ReviseContract" "BXXXXPPXXXXXXC" 0 (Some (5%N, Busy)))) = OCall 0 "BXXXXpRBXXXXPPXXXXXXC" true /\
   snd (step init (Call "ExpireTempSectors" "BXXXCBXC" 0 (Some (5%N, Hard)))) = OCall 1 "BXXXCb" true.
+Proof. vm_compute. repeat split; reflexivity. Qed.
+
+(** Process death (WP-D).  [die p s n]: the process running method p on the committed state s
+    is gone after exactly n database calls (Begin, Prepare, Exec/Query, Commit) have completed —
+    no rollback, no error handling, no compensation runs.  Its first component is what the
+    database file holds, for every database type, method, state and n. *)
+
+(* what a death before call n leaves is what a hard failure of call n leaves (methods without
+   tolerated read-backs; for those the failing call lets the method go on, a death does not) *)
+Theorem c09_death_is_failed_call : forall (db : Type) (p : list (item db)) (s : db) (n : nat),
+  no_try p = true -> fst (die p s n) = r_db (exec p s (Some (n, false)) false).
+Proof. exact die_is_failed_call. Qed.
+Print Assumptions c09_death_is_failed_call.
+
+(* wherever the process dies, the file holds the state after a complete prefix of the method's
+   transactions, each of them whole; it is the whole method if every call had completed *)
+Theorem c09_process_death : forall (db : Type) (p : list (item db)) (s : db) (n : nat),
+  only_txn p = true ->
+  exists m, (m <= List.length p)%nat /\
+    fst (die p s n) = r_db (exec (firstn m p) s None false) /\
+    r_res (exec (firstn m p) s None false) = Ok tt /\
+    (r_res (exec p s (Some (n, false)) false) = Ok tt -> m = List.length p).
+Proof. exact death_prefix. Qed.
+Print Assumptions c09_process_death.
+
+(* a method that is one transaction: after a death at any point the file is as before, or holds
+   everything the closure computes without faults *)
+Theorem c09_death_single_all_or_nothing : forall (db : Type) (b : body db) (s : db) (n : nat),
+  fst (die [ITxn b] s n) = s \/
+  exists tr0, run_body b s None = (BDone (fst (die [ITxn b] s n)), tr0, None).
+Proof. exact death_single. Qed.
+Print Assumptions c09_death_single_all_or_nothing.
+
+(* ... and it is "as before" unless the Commit call itself completed *)
+Theorem c09_death_before_commit_invisible : forall (db : Type) (b : body db) (s : db) (n : nat),
+  (n <= n_elig b + 1)%nat -> fst (die [ITxn b] s n) = s.
+Proof. exact death_before_commit. Qed.
+Print Assumptions c09_death_before_commit_invisible.
+
+(** The indexer when the best chain changes between rounds (Reorg.v): every round sees its own
+    view [best] of the chain (UpdatesSince of that moment: revert the marker's blocks that are
+    not on it, then apply, at most max blocks, one store transaction).  [replay c] = the data
+    of a fresh store after applying c.  Hypotheses: block identity is decidable, and reverting
+    the block just applied to a replayed state restores it (C01/C16 prove this for the contract
+    and wallet tables). *)
+
+(* whatever the views and the failures: the tip is the marker and the data is the replay of the
+   marker's chain — so a restart (tip := marker) changes nothing *)
+Theorem c09_reorg_marker_data_agree : forall (block data : Type) (beq : block -> block -> bool)
+    (apply revert : block -> data -> data) (d0 : data),
+  (forall (c : chain block) (b : block), revert b (apply b (replay apply d0 c)) = replay apply d0 c) ->
+  forall (max : nat) (sched : list (chain block * fc)) (s : rstate block data),
+  rinv apply d0 s ->
+  rinv apply d0 (rrun beq apply revert max sched s) /\
+  rrestart (rrun beq apply revert max sched s) = rrun beq apply revert max sched s.
+Proof. exact rrun_inv_restart. Qed.
+Print Assumptions c09_reorg_marker_data_agree.
+
+(* generalises c09_resume_converges: after ANY history — rounds on other views of the chain,
+   failing rounds, the rounds before a death — enough clean rounds on the view [best] end with
+   marker = tip = best and data = replay best, also when best leaves the old chain below the
+   stored marker *)
+Theorem c09_resume_converges_on_new_chain : forall (block data : Type) (beq : block -> block -> bool)
+    (apply revert : block -> data -> data) (d0 : data),
+  (forall a b : block, beq a b = true <-> a = b) ->
+  (forall (c : chain block) (b : block), revert b (apply b (replay apply d0 c)) = replay apply d0 c) ->
+  forall (max : nat) (sched : list (chain block * fc)) (best : list block) (n : nat) (s : rstate block data),
+  rinv apply d0 s ->
+  (List.length (r_marker (rs_db (rrun beq apply revert max sched s))) + List.length best <= n * max)%nat ->
+  rrun beq apply revert max (sched ++ repeat (best, None) n) s = synced apply d0 best.
+Proof. exact resume_reaches_best. Qed.
+Print Assumptions c09_resume_converges_on_new_chain.
+
+(* ... which is the state of the host that followed the new best chain from a fresh store
+   without interruption *)
+Theorem c09_resume_equals_uninterrupted_run : forall (block data : Type) (beq : block -> block -> bool)
+    (apply revert : block -> data -> data) (d0 : data),
+  (forall a b : block, beq a b = true <-> a = b) ->
+  (forall (c : chain block) (b : block), revert b (apply b (replay apply d0 c)) = replay apply d0 c) ->
+  forall (max : nat) (sched : list (chain block * fc)) (best : list block) (n n' : nat),
+  (List.length (r_marker (rs_db (rrun beq apply revert max sched (fresh block d0)))) + List.length best <= n * max)%nat ->
+  (List.length best <= n' * max)%nat ->
+  rrun beq apply revert max (sched ++ repeat (best, None) n) (fresh block d0) =
+  rrun beq apply revert max (repeat (best, None) n') (fresh block d0).
+Proof. exact resume_equals_uninterrupted. Qed.
+Print Assumptions c09_resume_equals_uninterrupted_run.
+
+(** Volume operations (Volume.v): storage.VolumeManager.AddVolume / ResizeVolume / RemoveVolume
+    as sequences of file operations and single-transaction store calls on one volume; a death
+    or a failure "at any point" is "after j steps", for every j.  [vok]: the row's slots all lie
+    inside the data file (in particular there is a file). *)
+
+(* AddVolume(path, max) on a fresh path, batch targets as the code computes them, any batch
+   size: after a death at any step and the next host start there is no volume (nothing, or the
+   empty file os.Create left), or a volume whose row is available and whose slots all lie inside
+   its file — never a row marked available without a usable file *)
+Theorem c09_addvolume_death_no_orphan_row : forall (fuel : nat) (max bsz : N) (j : nat),
+  let s := vrestart (vrun (firstn j (add_prog (grow_targets fuel 0 max bsz))) vnone) in
+  (v_row s = None /\ (v_file s = None \/ v_file s = Some 0%N)) \/
+  (exists t f, v_row s = Some (t, true) /\ v_file s = Some f /\ (t <= f)%N).
+Proof. exact addvolume_death. Qed.
+Print Assumptions c09_addvolume_death_no_orphan_row.
+
+(* a step that fails in-process: same invariant, and a failing Store.AddVolume (step 1) leaves
+   nothing behind (the file is removed again: /repo 110eeb0) *)
+Theorem c09_addvolume_failure_clean : forall (ts : list N) (j : nat), ascending 0%N ts ->
+  vok (add_fail ts j vnone) /\ (j = 1%nat -> add_fail ts j vnone = vnone).
+Proof. exact add_fail_ok. Qed.
+Print Assumptions c09_addvolume_failure_clean.
+
+(* growing (file first, then rows), shrinking (rows first, then file), removing (slots in any
+   batches, the row, then the file): a death after any number of steps leaves every slot of the row inside the file *)
+Theorem c09_grow_death_ok : forall (fuel : nat) (s : vol) (new bsz : N) (j : nat),
+  vok s -> v_file s <> None ->
+  vok (vrun (firstn j (grow_prog (grow_targets fuel (vtotal s) new bsz))) s).
+Proof. exact grow_death_ok. Qed.
+Print Assumptions c09_grow_death_ok.
+
+Theorem c09_shrink_death_ok : forall (fuel : nat) (s : vol) (new bsz : N) (j : nat),
+  vok s -> v_row s <> None ->
+  vok (vrun (firstn j (shrink_prog (shrink_targets fuel (vtotal s) new bsz))) s).
+Proof. exact shrink_death_ok. Qed.
+Print Assumptions c09_shrink_death_ok.
+
+Theorem c09_remove_death_ok : forall (ts : list N) (s : vol) (j : nat), vok s -> vok (vrun (firstn j (remove_prog ts)) s).
+Proof. exact remove_death_ok. Qed.
+Print Assumptions c09_remove_death_ok.
+
+(* the order matters: rows first when growing is refuted by a death between the two steps *)
+Theorem c09_grow_rows_first_refuted :
+  let s := {| v_file := Some 4%N; v_row := Some (4%N, true) |} in
+  vok s /\ ~ vok (vrun (firstn 1 (grow_prog_rows_first [8%N])) s).
+Proof. exact grow_rows_first_refuted. Qed.
+Print Assumptions c09_grow_rows_first_refuted.
+
+(* what a death between os.Create and the commit of Store.AddVolume leaves: no volume, but an
+   empty file at the path.  No state the property lists is touched (no row, no slot, no metric),
+   but AddVolume refuses a path whose file exists, so the operator has to delete the file before
+   the same call can be repeated — recorded by the harness as a count, see AS_BUILT *)
+Theorem c09_addvolume_death_leaves_empty_file : forall ts : list N,
+  vrun (firstn 1 (add_prog ts)) vnone = {| v_file := Some 0%N; v_row := None |}.
+Proof. exact add_death_orphan_file. Qed.
+Print Assumptions c09_addvolume_death_leaves_empty_file.
+
+(* what the correspondence check accepts satisfies the invariant *)
+Theorem c09_volume_check_sound : forall k pre new bsz seen, vol_check k pre new bsz seen = true -> vok seen.
+Proof. exact vol_check_sound. Qed.
+Print Assumptions c09_volume_check_sound.
+
+(* non-vacuity: a SIGKILLed child's recorded history — ReviseContract killed inside its Commit
+   (SQLite had returned, reply lost) is completely visible, killed before the Commit not at all;
+   RemoveVolume killed before the Begin of its second transaction shows the first one;
+   and a host that applied [1;2;3], fails a round, and is restarted on the chain [1;4;5;6]
+   (fork below its marker) ends on that chain with the data of its replay *)
+Example c09_death_nonvacuous :
+  snd (step init (Kill "ReviseContract" "BXXXXPPXXXXXXC" 0 13 true)) = OKill "BXXXXPPXXXXXXC" true /\
+  snd (step init (Kill "ReviseContract" "BXXXXPPXXXXXXC" 0 13 false)) = OKill "BXXXXPPXXXXXX" false /\
+  snd (step init (Kill "RemoveVolume" "BXXXXXXXXCBXXCBXXXC" 0 10 false)) = OKill "BXXXXXXXXC" true /\
+  snd (step init (VolDeath VAdd vnone 70 64 {| v_file := Some 64%N; v_row := Some (0%N, true) |})) = OVol true /\
+  snd (step init (VolDeath VGrow {| v_file := Some 70%N; v_row := Some (70%N, true) |} 140 64 {| v_file := Some 134%N; v_row := Some (140%N, true) |})) = OVol false /\
+  rrun N.eqb (fun b d => d ++ [b]) (fun b d => removelast d) 2
+       ([([1;2;3], None); ([1;2;3], None); ([1;4;5;6], Some (2%nat, false))] ++ repeat ([1;4;5;6], None) 4)%N (fresh N [])
+    = synced (fun b d => d ++ [b]) [] [1;4;5;6]%N.
 Proof. vm_compute. repeat split; reflexivity. Qed.
